@@ -329,11 +329,13 @@ class Engine(Interp):
         ob = Obligation(name, list(self.pc) if context is None else list(context), claim, self.path_id,
                         info, dict(self.named_inputs))
         self.obligations.append(ob)
-        # continue under the claim (standard assert-then-assume), so one failure does not cascade
+        # continue under the claim (standard assert-then-assume), so one failure does not cascade;
+        # a claim that is plainly false on this path is recorded and NOT assumed, so that the
+        # obligations that follow it are still generated (and named in the report)
         try:
             self.assume(claim)
         except Infeasible:
-            raise PathEnd()
+            pass
 
     def cover(self, name):
         self.covered.add(name)
